@@ -347,18 +347,12 @@ func (m *{{ .Name }}) Delete(k {{ .KeyType }}) {
 }
 
 func (m *{{ .Name }}) delete(k {{ .KeyType }}) {
-var kk {{ .KeyType }}
-	i := -1
-
-	for i, kk = range m.order {
-		if kk == k {
-			break
-		}
-	}
-
 	delete(m.data, k)
-	if i != -1 {
-		m.order = append(m.order[:i], m.order[i+1:]...)
+	for i, kk := range m.order {
+		if kk == k {
+			m.order = append(m.order[:i], m.order[i+1:]...)
+			return
+		}
 	}
 }
 
@@ -367,7 +361,10 @@ func (m *{{ .Name }}) Filter(fn filter{{ .CapitalizedName }}Func) {
 	m.mx.Lock()
 	defer m.mx.Unlock()
 
-	for _, k := range m.order {
+	// Iterate over a copy: delete shifts m.order in place.
+	order := make([]{{ .KeyType }}, len(m.order))
+	copy(order, m.order)
+	for _, k := range order {
 		if !fn(k, m.data[k]) {
 			m.delete(k)
 		}
